@@ -12,7 +12,7 @@ From Coq Require Import List Bool Arith ZArith NArith Lia.
 Import ListNotations.
 From Verif Require Import Common.ListX Gen.Tables.
 From Verif Require Import C12.Spec C12.Model C12.Corr.
-From Verif Require Import C12.Proofs C12.ProofsHist C12.ProofsLin C12.ProofsTerm C12.ProofsConc.
+From Verif Require Import C12.Proofs C12.ProofsHist C12.ProofsLin C12.ProofsTerm C12.ProofsConc C12.Witness C12.Final.
 
 Notation mstep vld nw := (@step val fn cas_ok apply (valid vld) nw).
 Notation mreach vld nw := (@reach val fn cas_ok apply (valid vld) nw).
@@ -26,11 +26,7 @@ Proof. exact ProofsConc.cas_mode_is_1. Qed.
 Theorem C12_mutual_exclusion : forall vld nw v0 progs s t u,
   mreach vld nw (init v0 progs) s ->
   in_cs (t_pc (thr s t)) = true -> in_cs (t_pc (thr s u)) = true -> t = u.
-Proof.
-  intros vld nw v0 progs s t u R Ht Hu.
-  destruct (reach_Inv cas_ok apply (valid vld) nw _ s (Inv_init _ _ _ _ v0 progs) R) as [IL _].
-  apply IL in Ht. apply IL in Hu. congruence.
-Qed.
+Proof. exact Final.mutual_exclusion. Qed.
 
 (** Linearizability, for all interleavings, when every value in play is [plain] (its ==
     is identity: no 1/1.0, no pathological __eq__): the ghost history read in commit order
@@ -45,66 +41,21 @@ Theorem C12_linearizable_partial : forall vld nw v0 progs s,
   /\ (forall t, evs t (hist s) = pend apply (valid vld) (thr s t) ++ dones (thr s t)
                 /\ progs t = rev (map fst (dones (thr s t))) ++ t_ops (thr s t))
   /\ (forall e, In e (hist s) -> installs (e_op e) (e_res e) = true -> e_read e = e_before e).
-Proof.
-  intros vld nw v0 progs s Hv Hp R lin.
-  destruct (AllInv_reach cas_ok apply (valid vld) nw v0 progs plain fn_plain plain_apply plain_id s Hv Hp R)
-    as (I1 & [H1 H2] & I3 & I4 & I5 & _).
-  split; [|split].
-  - unfold lin. rewrite (chain_seq_run cas_ok apply (valid vld) v0 (hist s) H2).
-    + rewrite <- H1. reflexivity.
-    + intros e He. apply (I5 e He).
-  - exact I3.
-  - intros e He. apply (I5 e He).
-Qed.
-
-(** helpers to extract facts about a concrete run from a closed computation *)
-Lemma run_case_chk (c : case) (chk : state val fn -> bool) :
-  match run_case c with Some s => chk s | None => false end = true ->
-  exists s, run_case c = Some s /\ chk s = true.
-Proof. destruct (run_case c) as [s|]; intro H; [eauto|discriminate]. Qed.
-
-Lemma run_case_reach (c : case) s :
-  run_case c = Some s -> mreach (c_vld c) (c_nwatch c) (init_state c) s.
-Proof. intro E. eapply run_schedule_reach; [apply reach_refl|exact E]. Qed.
+Proof. exact Final.linearizable_partial. Qed.
 
 (** the guard is satisfiable on a non-trivial execution: two racing swap! inc, one retry *)
-Definition inc_inc_case : case :=
-  mkCase (VInt 0) None 0 [[OSwap Py FInc false]; [OSwap Core FInc true]]
-    [(0, LRead, false); (0, LCompute, false); (1, LDL, false); (1, LDRead, false); (1, LDL, false);
-     (1, LCompute, false); (1, LVal, false); (1, LCL, false); (1, LCmp, false); (1, LSet, false);
-     (1, LCL, false); (0, LVal, false); (0, LCL, false); (0, LCmp, false); (0, LCL, false);
-     (0, LRead, false); (0, LCompute, false); (0, LVal, false); (0, LCL, false); (0, LCmp, false);
-     (0, LSet, false); (0, LCL, false)].
-
 Example C12_linearizable_guard_inhabited :
   exists s, mreach (c_vld inc_inc_case) (c_nwatch inc_inc_case) (init_state inc_inc_case) s
             /\ cell s = VInt 2 /\ length (hist s) = 2
             /\ (exists d, t_done (thr s 0) = [d] /\ snd d = 1)      (* thread 0 retried once *)
             /\ plain (c_init inc_inc_case) = true
             /\ forallb (forallb (opP plain fn_plain)) (c_threads inc_inc_case) = true.
-Proof.
-  pose (chk := fun s : state val fn =>
-          val_eqb (cell s) (VInt 2) && Nat.eqb (length (hist s)) 2
-          && match t_done (thr s 0) with [d] => Nat.eqb (snd d) 1 | _ => false end).
-  destruct (run_case_chk inc_inc_case chk) as (s & E & H); [vm_compute; reflexivity|].
-  exists s. split; [apply run_case_reach; exact E|].
-  unfold chk in H. apply andb_true_iff in H as [H H3]. apply andb_true_iff in H as [H1 H2].
-  split; [apply val_eqb_eq; exact H1|]. split; [apply Nat.eqb_eq; exact H2|].
-  split; [|split; reflexivity].
-  destruct (t_done (thr s 0)) as [|d [|? ?]]; try discriminate.
-  exists d. split; [reflexivity|apply Nat.eqb_eq; exact H3].
-Qed.
+Proof. exact Witness.guard_inhabited. Qed.
 
 (** Without the guard the clause is false for the code as it is: 1 and 1.0.  Thread 0 runs
     (swap! a str), thread 1 (reset! a 1.0) on an atom holding 1; thread 0 reads 1, thread 1
     installs 1.0, thread 0's compare-and-set succeeds because 1.0 == 1 and installs "1":
     neither order of the two calls gives "1" as the final value. *)
-Definition aba_case : case :=
-  mkCase (VInt 1) None 0 [[OSwap Py FStr false]; [OReset Py (VFlt 1) false]]
-    [(0, LRead, false); (0, LCompute, false); (0, LVal, false);
-     (1, LRead, false); (1, LVal, false); (1, LCL, false); (1, LCmp, false); (1, LSet, false); (1, LCL, false);
-     (0, LCL, false); (0, LCmp, false); (0, LSet, false); (0, LCL, false)].
-
 Theorem C12_eq_aba_refuted :
   exists c s, run_case c = Some s
     /\ mreach (c_vld c) (c_nwatch c) (init_state c) s
@@ -112,25 +63,7 @@ Theorem C12_eq_aba_refuted :
     /\ cell s = VStr [49%N]                                           (* final value "1" *)
     /\ (exists e, In e (hist s) /\ e_read e <> e_before e /\ installs (e_op e) (e_res e) = true)
     /\ spec_ok c (model c) = false.                       (* no sequential order explains it *)
-Proof.
-  exists aba_case.
-  pose (chk := fun s : state val fn =>
-          forallb (fun t => match t_ops (thr s t) with [] => true | _ => false end) (seq 0 2)
-          && val_eqb (cell s) (VStr [49%N])
-          && existsb (fun e => negb (val_eqb (e_read e) (e_before e)) && installs (e_op e) (e_res e)) (hist s)).
-  destruct (run_case_chk aba_case chk) as (s & E & H); [vm_compute; reflexivity|].
-  exists s. split; [exact E|].
-  split; [apply run_case_reach; exact E|].
-  unfold chk in H. apply andb_true_iff in H as [H H3]. apply andb_true_iff in H as [H1 H2].
-  split; [|split; [apply val_eqb_eq; exact H2|split]].
-  - intros t Ht. rewrite forallb_forall in H1. specialize (H1 t).
-    assert (In t (seq 0 2)) as Hin by (apply in_seq; simpl in Ht; lia).
-    specialize (H1 Hin). destruct (t_ops (thr s t)); [reflexivity|discriminate].
-  - apply existsb_exists in H3 as (e & He & Hc). apply andb_true_iff in Hc as [Hc1 Hc2].
-    exists e. split; [exact He|]. split; [|exact Hc2].
-    intro Heq. rewrite Heq, val_eqb_refl in Hc1. discriminate.
-  - vm_compute. reflexivity.
-Qed.
+Proof. exact Witness.eq_aba_refuted. Qed.
 
 (** A value rejected by the validator is never in the cell: for all interleavings, if the
     initial value is valid then so is every value the cell ever holds (hence every value
@@ -140,13 +73,7 @@ Theorem C12_validator_never_visible : forall vld nw v0 progs s,
   valid vld (cell s) = true
   /\ (forall e, In e (hist s) -> valid vld (e_before e) = true /\ valid vld (e_after e) = true)
   /\ (forall k o n, In (k, o, n) (wlog s) -> valid vld n = true).
-Proof.
-  intros vld nw v0 progs s Hv R.
-  destruct (reach_hist cas_ok apply (valid vld) nw v0 progs s R) as (_ & _ & _ & [_ W2] & I5).
-  destruct (I5 Hv) as [V1 V2]. split; [exact V1|split; [exact V2|]].
-  intros k o n Hin. destruct (W2 k o n Hin) as [_ [t (e & He & _ & _ & Ha & _)]].
-  rewrite <- Ha. apply (V2 e He).
-Qed.
+Proof. exact Final.validator_never_visible. Qed.
 
 (** Every watch notification (k, old, new), under every interleaving, is the notification
     of a committed install: some event of the history installed [new] over a cell value
@@ -155,24 +82,50 @@ Theorem C12_watch_pairs_are_commits : forall vld nw v0 progs s k o n,
   mreach vld nw (init v0 progs) s -> In (k, o, n) (wlog s) ->
   k < nw /\ exists e, In e (hist s) /\ e_read e = o /\ e_after e = n
                       /\ cas_ok (e_before e) o = true.
-Proof.
-  intros vld nw v0 progs s k o n R Hin.
-  destruct (reach_hist cas_ok apply (valid vld) nw v0 progs s R) as (_ & _ & _ & [_ W2] & _).
-  destruct (W2 k o n Hin) as [Hk [t (e & He & _ & Hr & Ha & Hc)]].
-  split; [exact Hk|]. exists e. auto.
-Qed.
+Proof. exact Final.watch_pairs_are_commits. Qed.
 
 (** ... and for plain values it is exactly a transition the cell made: old -> new. *)
 Theorem C12_watch_pairs_are_transitions_partial : forall vld nw v0 progs s k o n,
   plain v0 = true -> (forall t, forallb (opP plain fn_plain) (progs t) = true) ->
   mreach vld nw (init v0 progs) s -> In (k, o, n) (wlog s) ->
   exists e, In e (hist s) /\ e_before e = o /\ e_after e = n.
-Proof.
-  intros vld nw v0 progs s k o n Hv Hp R Hin.
-  destruct (C12_watch_pairs_are_commits vld nw v0 progs s k o n R Hin) as [_ (e & He & Hr & Ha & Hc)].
-  exists e. split; [exact He|]. split; [|exact Ha].
-  destruct (AllInv_reach cas_ok apply (valid vld) nw v0 progs plain fn_plain plain_apply plain_id s Hv Hp R)
-    as (_ & _ & _ & _ & _ & HP).
-  destruct (HP e He) as (Pr & Pb & _).
-  apply plain_id; [exact Pb|rewrite <- Hr; exact Pr|exact Hc].
-Qed.
+Proof. exact Final.watch_pairs_are_transitions_partial. Qed.
+
+(** Termination without interference, whatever the atom holds (NaN, objects with any
+    __eq__): started with the lock free and left alone, every operation finishes within
+    9 + #watches of its own steps, with NO retry (the retry counter recorded with the result
+    is the one it started with), returns what the sequential specification prescribes and
+    leaves the prescribed value in the cell.  [Fin] is defined in C12/ProofsTerm.v. *)
+Theorem C12_terminates_solo : forall vld nw s t o rest,
+  t_ops (thr s t) = o :: rest -> t_pc (thr s t) = PIdle -> lock s = None ->
+  Fin cas_ok apply (valid vld) nw s t rest o
+      (snd (seq_step cas_ok apply (valid vld) o (cell s)))
+      (fst (seq_step cas_ok apply (valid vld) o (cell s))) (9 + nw).
+Proof. exact Final.terminates_solo. Qed.
+
+Example C12_terminates_solo_on_nan :
+  exists n s', n <= 9
+    /\ solo cas_ok apply (valid None) 0 0 n (init (VNaN 0) (progs_of [[OReset Py (VInt 1) false]])) = Some s'
+    /\ cell s' = VInt 1 /\ t_ops (thr s' 0) = [].
+Proof. exact Final.terminates_solo_on_nan. Qed.
+
+(** The defect this replaced (finding F-12a, fixed): with the former test `self._state !=
+    old` a reset on an atom holding NaN, running alone, never finishes. *)
+Theorem C12_eq_only_cas_spins : forall k w vals rest t nw (s : state val fn),
+  cell s = VNaN k -> t_ops (thr s t) = OReset Py w vals :: rest -> t_pc (thr s t) = PIdle ->
+  lock s = None ->
+  forall n, exists s', solo (cas_test 0) apply (valid None) nw t n s = Some s'
+                       /\ t_ops (thr s' t) = OReset Py w vals :: rest.
+Proof. exact Final.eq_only_cas_spins. Qed.
+
+Print Assumptions C12_table_cas_mode.
+Print Assumptions C12_mutual_exclusion.
+Print Assumptions C12_linearizable_partial.
+Print Assumptions C12_linearizable_guard_inhabited.
+Print Assumptions C12_eq_aba_refuted.
+Print Assumptions C12_validator_never_visible.
+Print Assumptions C12_watch_pairs_are_commits.
+Print Assumptions C12_watch_pairs_are_transitions_partial.
+Print Assumptions C12_terminates_solo.
+Print Assumptions C12_terminates_solo_on_nan.
+Print Assumptions C12_eq_only_cas_spins.
